@@ -45,7 +45,10 @@ impl Op {
     }
 }
 
-pub const KEYS: [u64; 4] = [5, 5 + 131_072, 5 + 2 * 131_072, 6];
+// k0..k2 share a slot in the 1 MB and 2 MB tables of the implementation under test; k3 has a slot of its own that
+// differs between table sizes (so that anything remembered about it across a resize is wrong). The model does not
+// rely on this: slot classes are measured through the public API.
+pub const KEYS: [u64; 4] = [5, 5 + 131_072, 5 + 2 * 131_072, 6 + 65_536];
 
 fn bound_of(b: u8) -> NodeBound {
     match b {
@@ -106,7 +109,7 @@ fn observed(t: &SearchTranspositionTable) -> ([Option<Entry>; 4], u8, usize, usi
             o[i] = Some((ki, d.depth, b, d.age));
         }
     }
-    (o, t.generation, t.occupied, t.occupancy())
+    (o, t.generation, (t.occupied as usize), (t.occupancy() as usize))
 }
 
 struct Exec {
@@ -124,6 +127,13 @@ impl Exec {
 
     /// Apply one operation to the real table and to the model; Err = violation text.
     fn apply(&mut self, op: Op) -> Result<(), String> {
+        self.apply_opt(op, true)
+    }
+
+    /// `probe` = compare every key with the model after the operation. Probing is itself a sequence of table
+    /// operations (it may disturb whatever the table remembers between calls), so every history is also executed
+    /// without intermediate probes and compared once at its end.
+    fn apply_opt(&mut self, op: Op, probe: bool) -> Result<(), String> {
         match op {
             Op::Insert { key, depth, bound } => {
                 let age = self.m.generation;
@@ -166,14 +176,18 @@ impl Exec {
                 } else {
                     // resize to the current size is a documented no-op; either behaviour is accepted
                     let (o, g, _, _) = observed(&self.t);
-                    if o.iter().all(|x| x.is_none()) && self.t.occupied == 0 {
+                    if o.iter().all(|x| x.is_none()) && (self.t.occupied as usize) == 0 {
                         self.m.slots = [None; 4];
                         self.m.generation = g;
                     }
                 }
             }
         }
-        self.compare()
+        if probe {
+            self.compare()
+        } else {
+            Ok(())
+        }
     }
 
     fn compare(&self) -> Result<(), String> {
@@ -231,6 +245,17 @@ fn run_history(size: usize, start_gen: u8, hist: &[Op], classes: &std::collectio
     e.compare().map_err(|m| (0, m))?;
     for (i, op) in hist.iter().enumerate() {
         e.apply(*op).map_err(|m| (i + 1, m))?;
+    }
+    // the same history without the intermediate probes
+    if hist.len() >= 2 {
+        let mut q = Exec::new(size, start_gen, classes).map_err(|m| (0, format!("new({size}) panicked: {m}")))?;
+        for (i, op) in hist.iter().enumerate() {
+            q.apply_opt(*op, false).map_err(|m| (i + 1, m))?;
+        }
+        q.compare().map_err(|m| (hist.len(), format!("[history executed without intermediate probes] {m}")))?;
+        if q.canon() != e.canon() {
+            return Err((hist.len(), format!("the table state after the history depends on whether it was probed in between: {:?} vs {:?}", q.canon(), e.canon())));
+        }
     }
     Ok(e)
 }
@@ -347,11 +372,11 @@ pub fn fill_indicator(run: &Run, sizes: &[usize]) -> (u64, u64) {
                     next += 1;
                     checks += 1;
                     let occupied_slots = keys[..m].iter().filter(|k| t.get(&ZobristHash(**k)).is_some()).count();
-                    if t.occupied != occupied_slots {
-                        bad.push(format!("size {size} MB after {m} inserts: occupied = {}, {} of the inserted keys are retrievable (= occupied slots)", t.occupied, occupied_slots));
+                    if (t.occupied as usize) != occupied_slots {
+                        bad.push(format!("size {size} MB after {m} inserts: occupied = {}, {} of the inserted keys are retrievable (= occupied slots)", (t.occupied as usize), occupied_slots));
                     }
                     let want = 1000 * occupied_slots / n;
-                    let got = t.occupancy();
+                    let got = (t.occupancy() as usize);
                     if (got as i64 - want as i64).abs() > 1 {
                         bad.push(format!("size {size} MB, {occupied_slots} of {n} slots occupied: fill indicator {got}, fraction is {want} permille"));
                     }
@@ -364,17 +389,17 @@ pub fn fill_indicator(run: &Run, sizes: &[usize]) -> (u64, u64) {
                 }
             }
             // nothing but replacement from here: re-inserting held keys (deeper, exact) must not change the statistics
-            let before = (t.occupied, t.occupancy());
+            let before = ((t.occupied as usize), (t.occupancy() as usize));
             let held: Vec<u64> = keys.iter().copied().filter(|k| t.get(&ZobristHash(*k)).is_some()).take(5000).collect();
             for k in &held {
                 t.insert(&ZobristHash(*k), data(1, 2, 0, 0));
             }
-            if (t.occupied, t.occupancy()) != before {
-                bad.push(format!("size {size} MB: re-inserting held keys changed the fill statistics from {before:?} to {:?}", (t.occupied, t.occupancy())));
+            if ((t.occupied as usize), (t.occupancy() as usize)) != before {
+                bad.push(format!("size {size} MB: re-inserting held keys changed the fill statistics from {before:?} to {:?}", ((t.occupied as usize), (t.occupancy() as usize))));
             }
             t.reset();
-            if t.occupied != 0 || t.occupancy() != 0 || keys.iter().take(1000).any(|k| t.get(&ZobristHash(*k)).is_some()) {
-                bad.push(format!("size {size} MB: reset leaves occupied={} occupancy={}", t.occupied, t.occupancy()));
+            if (t.occupied as usize) != 0 || (t.occupancy() as usize) != 0 || keys.iter().take(1000).any(|k| t.get(&ZobristHash(*k)).is_some()) {
+                bad.push(format!("size {size} MB: reset leaves occupied={} occupancy={}", (t.occupied as usize), (t.occupancy() as usize)));
             }
             (bad, checks, total as u64)
         });
@@ -390,6 +415,63 @@ pub fn fill_indicator(run: &Run, sizes: &[usize]) -> (u64, u64) {
         }
     }
     run.family("TT-FILL", &format!("sizes {sizes:?} MB: 4 x (size / entry size) keys (half consecutive integers, half pseudo-random) inserted one by one; at ~35 checkpoints (1, 2, 3, 10, the permille steps around N/1000, N/100 .. N, 3N/2, 2N) the number of occupied slots is measured through probes and compared with `occupied` and the fill indicator; capacity; re-insertion; reset"), states, tr, true, "independent of the key-to-slot mapping");
+    (states, tr)
+}
+
+/// Large tables: the fill statistics where counters get big (more than 2^32 / 1000 occupied slots), with consecutive
+/// keys only; occupied slots are measured through probes at a few checkpoints and by construction elsewhere
+/// (distinct keys below the slot count never share a slot under any modulus / mask / multiply-shift mapping that
+/// is a bijection on 0..N; where that does not hold the probe count decides).
+pub fn fill_large(run: &Run, size: usize) -> (u64, u64) {
+    crate::util::set_current_case(J::obj(vec![("kind", J::s("tt-fill-large")), ("size_mb", J::i(size as i64))]).dump().replace('\n', " "), format!("large-table fill pass on a table of {size} MB"));
+    let r = catch(|| {
+        let n = crate::engine::transposition_table::calculate_number_of_entries::<SearchTranspositionTableData>(size).max(1);
+        let mut t = SearchTranspositionTable::new(size);
+        let mut bad: Vec<String> = vec![];
+        let total = (n / 10 * 7).max(1);
+        let edge = (u32::MAX / 1000) as usize;
+        let mut checkpoints: Vec<usize> = vec![1, n / 1000, n / 100, n / 10, n / 4, n / 2, edge - 1, edge, edge + 1, edge + 2, edge + edge / 2, 2 * edge, total];
+        checkpoints.retain(|c| *c >= 1 && *c <= total);
+        checkpoints.sort();
+        checkpoints.dedup();
+        let probe_at: Vec<usize> = vec![n / 100, edge + 1, total];
+        let (mut checks, mut next) = (0u64, 0usize);
+        for m in 1..=total {
+            t.insert(&ZobristHash(m as u64 - 1), data(0, 1, 1, 0));
+            if next < checkpoints.len() && checkpoints[next] == m {
+                next += 1;
+                checks += 1;
+                let occ = t.occupied as usize;
+                if probe_at.contains(&m) {
+                    let measured = (0..m as u64).filter(|k| t.get(&ZobristHash(*k)).is_some()).count();
+                    if occ != measured {
+                        bad.push(format!("size {size} MB after {m} inserts: occupied = {occ}, {measured} of the inserted keys are retrievable"));
+                    }
+                }
+                let want = 1000 * occ as u128 / n as u128;
+                let got = t.occupancy() as u128;
+                if got.abs_diff(want) > 1 {
+                    bad.push(format!("size {size} MB, {occ} of {n} slots occupied: fill indicator {got}, fraction is {want} permille"));
+                }
+                if bad.len() > 3 {
+                    break;
+                }
+            }
+        }
+        (bad, checks, total as u64)
+    });
+    let (mut states, mut tr) = (0u64, 0u64);
+    match r {
+        Err(e) => run.violation("tt-panic", format!("tt-panic|fill-large|size {size}"), J::obj(vec![("kind", J::s("tt-fill-large")), ("size_mb", J::i(size as i64))]), format!("large-table fill pass on a {size} MB table panicked: {e}")),
+        Ok((bad, checks, ins)) => {
+            states += checks;
+            tr += ins;
+            for b in bad {
+                run.violation("tt-fill-indicator", format!("tt-fill-large|size {size}|{}", &b[..b.len().min(60)]), J::obj(vec![("kind", J::s("tt-fill-large")), ("size_mb", J::i(size as i64))]), b);
+            }
+        }
+    }
+    run.family("TT-FILL-LARGE", &format!("{size} MB table, consecutive keys up to 70 % of the slots, fill statistics at 13 checkpoints including the counts around 2^32 / 1000 occupied slots"), states, tr, true, "");
     (states, tr)
 }
 
@@ -449,6 +531,9 @@ pub fn replay(run: &Run, case: &J) {
         }
         Some("tt-fill") => {
             fill_indicator(run, &[size]);
+        }
+        Some("tt-fill-large") => {
+            fill_large(run, size);
         }
         _ => {
             many_generations(run, size);
